@@ -270,7 +270,12 @@ class GenSource(object):
         if leaves:
             k, e = leaves[rng.randrange(len(leaves))]
             if k == 'i':
-                e['i'] = e['i'] + rng.choice([-1, 1])
+                if rng.random() < 0.3:
+                    # type neighbour: the same number as a float (accepted by most callables, rejected with
+                    # TypeError by a few; either way the answer must not depend on what was asked before)
+                    e['f'] = float(e.pop('i')).hex()
+                else:
+                    e['i'] = e['i'] + rng.choice([-1, 1])
             elif k == 'f':
                 x = float.fromhex(e['f'])
                 # small moves only: the neighbour must stay inside the conservative domain the generator chose
@@ -331,17 +336,20 @@ class GenSource(object):
             return None      # the generator did not take the scripted object as receiver
         return self._finish({'name': name, 'recv': r[0], 'args': r[1], 'kwargs': r[2]}, task, depth)
 
-    def _life_step(self, sim, task, depth, what, kind, hid):
+    def _life_step(self, sim, task, depth, what, kind, hid, fixed=None):
         """One scripted step in the life of object hid: 'use' (a pure method) or 'change' (a documented mutator)."""
         if hid not in sim.pool.handles:
             return None
         names = [n for n in NAMES if n.startswith(kind + '.') and ENTRIES[n].kind in ('meth', 'op') and
                  (ENTRIES[n].effect == 'pure') == (what == 'use') and ENTRIES[n].effect != 'rebind' and
                  not n.endswith('#bad')]
-        for _ in range(5):
+        if fixed is not None:
+            names = [fixed] * 2 + names
+        for k in range(5):
             if not names:
                 return None
-            op = self._make_named(sim, task, depth, self.rng.choice(names), (kind, hid))
+            nm = fixed if (fixed is not None and k < 2) else self.rng.choice(names)
+            op = self._make_named(sim, task, depth, nm, (kind, hid))
             if op is not None:
                 sim.count('probe.scripted_object_life_' + what)
                 return op
@@ -418,9 +426,12 @@ class GenSource(object):
                     rng.random() < self.cfg['p_life']:
                 kind_ = name.split('.')[0]
                 hid = op['id'] * self.cfg['hstride']
+                uses = [n for n in NAMES if n.startswith(kind_ + '.') and ENTRIES[n].kind in ('meth', 'op') and
+                        ENTRIES[n].effect == 'pure' and not n.endswith('#bad')]
+                same = rng.choice(uses) if uses and rng.random() < 0.7 else None   # observe the SAME thing before/after
                 for w in rng.choice([['use', 'change', 'use'], ['use', 'use', 'change', 'use', 'use'],
                                      ['change', 'use'], ['use', 'change', 'change', 'use']]):
-                    q.append(('life', (w, kind_, hid)))
+                    q.append(('life', (w, kind_, hid, same if w == 'use' else None)))
             has_list = any(isinstance(x, dict) and x.get('mk') == 'list' for x in args)
             if e.effect == 'pure' and rng.random() < self.cfg['p_repeat']:
                 rep = {'name': name, 'recv': copy.deepcopy(recv), 'args': copy.deepcopy(args),
